@@ -12,11 +12,13 @@ Model of the TSIG code (C13), over raw message bytes:
 The HMAC is never computed: every signer carries an oracle `macOK tbs tag` ("`hmac::verify(key,
 tbs, tag)` succeeds").  In the correspondence run the harness evaluates it with the real HMAC.
 
-Rust panics (debug profile, which is how the harness and the upstream tests are built) are
-explicit:
-  * `tsig:answers+authorities`  — `counts.answers + counts.authorities` (u16 + u16)
-  * `tsig:debug_assert-sig`     — `debug_assert!(sig.is_none())` after reading ARCOUNT-1 records
-  * `tsig:time-fudge`           — `tsig.time - tsig.fudge as u64`
+This is the code *after* the repairs cdba272 / 46a3964 / 84e713d in /repo: no arithmetic or
+assertion panic site is left in this path (`counts.answers as usize + counts.authorities as usize`;
+a TSIG among the first ARCOUNT − 1 additional records is an `Err`; `time.saturating_sub(fudge)`),
+the header is digested as received, and a TSIG RR whose CLASS is not ANY or whose TTL is not 0 is
+rejected.  The remaining `debug_assert!(sig.is_none())` after the answer/authority records cannot
+fire: `read_records(.., is_additional = false, ..)` never returns a signature
+(`C13.readRecords_nonadd_state`).
 -/
 import HickoryVerif.Model.TsigWalk
 
@@ -52,15 +54,16 @@ def prevPart : Option Bytes → Bytes
 /-- The three `read_records` calls of `signed_bitmessage_to_buf`, started after the question
 section at `pos`; returns the TSIG record (its `start` is `end_data`). -/
 def locateSig (buf : Bytes) (h : Hdr) (pos : Nat) (rdok : Bool) : Outcome SigRec :=
-  if h.an + h.ns > 65535 then .panic "tsig:answers+authorities" else
   if rdok = false then .err else
   match readRecords buf false (h.opcode == 5) (h.an + h.ns) pos none none with
   | .ok (p1, _, _) =>
     match readRecords buf true (h.opcode == 5) (h.ar - 1) p1 none none with
     | .ok (p2, sig2, _) =>
-      if sig2.isSome then .panic "tsig:debug_assert-sig" else
+      if sig2.isSome then .err else        -- "TSIG signature record must be the last record …"
       match readRecords buf true (h.opcode == 5) 1 p2 none none with
-      | .ok (_, some s, _) => .ok s
+      | .ok (_, some s, _) =>
+        if s.rclass ≠ 255 ∨ s.ttl ≠ 0 then .err     -- "TSIG record must have class ANY and TTL 0"
+        else .ok s
       | .ok (_, none, _) => .err                    -- "TSIG signature record not found"
       | .err => .err
       | .panic s => .panic s
@@ -70,10 +73,10 @@ def locateSig (buf : Bytes) (h : Hdr) (pos : Nat) (rdok : Bool) : Outcome SigRec
   | .panic s => .panic s
 
 /-- the TBS bytes once the TSIG record is known:
-previous MAC (length-prefixed) ‖ header with id := Original ID and ARCOUNT − 1, re-emitted from
-the parsed fields ‖ the received octets `[12, start of TSIG RR)` verbatim ‖ TSIG variables. -/
+previous MAC (length-prefixed) ‖ the received header with id := Original ID and ARCOUNT − 1
+(`hdrDigest`) ‖ the received octets `[12, start of TSIG RR)` verbatim ‖ TSIG variables. -/
 def tbsOf (buf : Bytes) (h : Hdr) (s : SigRec) (prev : Option Bytes) (first : Bool) : Bytes :=
-  prevPart prev ++ emitHdr { h with id := s.data.oid, ar := h.ar - 1 } ++
+  prevPart prev ++ hdrDigest buf s.data.oid (h.ar - 1) ++
     (buf.drop 12).take (s.start - 12) ++
     (if first then tsigVars s.name s.data else tsigTimers s.data)
 
@@ -131,7 +134,7 @@ def verifyMessageByte (sg : Signer) (buf : Bytes) (prev : Option Bytes) (first r
     if (Name.eq r.name sg.name && algIs r.data.algName sg.alg) = false then .err   -- TsigWrongKey
     else if r.data.mac.length < outLen sg.alg then .err                             -- truncated
     else if sg.macOK tbv r.data.mac = false then .err                               -- HmacInvalid
-    else if r.data.time < r.data.fudge then .panic "tsig:time-fudge"
+    -- `time.saturating_sub(fudge)` is the truncated subtraction of `Nat`
     else .ok { mac := r.data.mac, time := r.data.time,
                lo := r.data.time - r.data.fudge, hi := r.data.time + r.data.fudge }
   | .err => .err
@@ -338,15 +341,7 @@ def serve (cfg : ZoneCfg) (buf : Bytes) (now : Nat) (rdok : Bool) : Outcome (Opt
       | .err => .err
       | .panic m => .panic m
 
-/-! ### decidable classes of the recorded findings -/
-
-/-- `C13.TimeLtFudge`: a TSIG whose time is smaller than its fudge -/
-def TimeLtFudge (d : TsigData) : Prop := d.time < d.fudge
-instance (d : TsigData) : Decidable (TimeLtFudge d) := by unfold TimeLtFudge; exact inferInstance
-
-/-- `C13.CountOverflow`: ANCOUNT + NSCOUNT does not fit a u16 -/
-def CountOverflow (h : Hdr) : Prop := h.an + h.ns > 65535
-instance (h : Hdr) : Decidable (CountOverflow h) := by unfold CountOverflow; exact inferInstance
+/-! ### decidable class of the recorded finding -/
 
 /-- `C13.ReplyTruncatedAfterSigning`: the reply is MAC'ed over its unlimited encoding
 (`unsignedLen` octets) but sent under the transport's size limit; with the TSIG RR it does not
